@@ -14,7 +14,12 @@ import Csverif.Driver.Wire
                                              Runnable.run/SyncManager.do over the current changeset (not written back);
                                              w ∈ F(inished) P(unted) Q(requeue) R(aised), d = time the work takes
                                              → `<t> <id|~> ; … | <final in_backoff>`
+   `rule top <folder> <v>` | `rule sfx <suffix> <v>`   the application's prioritize: value of the first matching name suffix,
+                                             else of the top-level folder, else 0 (both sides)
+   `oip <T|F> <T|F>`                         providers[LOCAL/REMOTE].oid_is_path
+   `updatedir <s> <oid> <prior oid|~> <path> <now>`   state.update(s, DIRECTORY, oid, path=path, prior_oid=prior)
    `obsreset` | `obs <now-age> <attempted id|~> <raised T|F> | <id> <prio> <lchanged> <rchanged> ; … | <rows after>` |
+   `obscls <id> <class> ; …`                 the application's class of every pending entry, for the last `obs`: → `ok` | `bad unaged|classorder`
    `wait <id>`                               monitor of engine traces (Model/SchedLoop.lean `Obs.check`, `waitOf`): one `obs` per
                                              call of the real SyncManager.do → `ok <kind>` or `bad <kind> pick|stuck|rank …`;
                                              `wait` → `<eligible T|F> <attempted T|F> <busy> <bound>`
@@ -60,11 +65,19 @@ structure DSt where
   dns   : List (String × String) := []
   infos : List ((Bool × String) × Option (String × Rat)) := []
   obs   : List SchedLoop.Obs := []
+  tops  : List (String × Rat) := []
+  sfxs  : List (String × Rat) := []
+  oip   : Bool × Bool := (false, false)
 
 def DSt.dn (d : DSt) (p : String) : String :=
   match d.dns.find? (·.1 == p) with
   | some (_, x) => x
-  | none => ""
+  | none =>
+    -- not announced: '/'-separated, case-sensitive default (what the mock providers' dirname gives for the harness's paths)
+    match (p.splitOn "/").dropLast with
+    | [] => ""
+    | [""] => "/"
+    | parts => "/".intercalate parts
 
 def DSt.orc (d : DSt) : Oracle := fun id s =>
   match d.st.get? id with
@@ -76,6 +89,18 @@ def DSt.orc (d : DSt) : Oracle := fun id s =>
       | none => none
     | none => none
   | none => none
+
+/-- the application's prioritize used by the harness: name suffix first, then top-level folder, else 0 -/
+def DSt.cls (d : DSt) : Cls := fun _ p =>
+  match d.sfxs.find? (fun x => p.endsWith x.1) with
+  | some (_, v) => v
+  | none =>
+    match (p.splitOn "/") with
+    | _ :: top :: _ =>
+      match d.tops.find? (fun x => x.1 == top) with
+      | some (_, v) => v
+      | none => 0
+    | _ => 0
 
 def encOptS : Option String → String
   | none => "~"
@@ -101,6 +126,23 @@ def step (d : DSt) (toks : List String) : DSt × String :=
     match parseStr p, parseStr q with
     | some p, some q => ({ d with dns := (p, q) :: d.dns }, "ok")
     | _, _ => bad
+  | ["rule", kind, name, v] =>
+    match parseStr name, parseRat v with
+    | some name, some v =>
+      if kind == "top" then ({ d with tops := d.tops ++ [(name, v)] }, "ok")
+      else if kind == "sfx" then ({ d with sfxs := d.sfxs ++ [(name, v)] }, "ok")
+      else bad
+    | _, _ => bad
+  | ["oip", a, b] =>
+    match decBool a, decBool b with
+    | some a, some b => ({ d with oip := (a, b) }, "ok")
+    | _, _ => bad
+  | ["updatedir", s, oid, prior, path, now] =>
+    match parseSide s, parseStr oid, (if prior == "~" then some none else (parseStr prior).map some), parseStr path, parseRat now with
+    | some s, some oid, some prior, some path, some now =>
+      let (st, id) := opUpdateDir d.cls d.oip d.st s oid prior path now
+      ({ d with st := st }, s!"id {id} " ++ encSt st)
+    | _, _, _, _, _ => bad
   | ["info", s, oid, path, prio] =>
     match parseSide s, parseStr oid, parseRat prio with
     | some s, some oid, some prio =>
@@ -175,6 +217,18 @@ def step (d : DSt) (toks : List String) : DSt × String :=
       let bad := o.check
       ({ d with obs := d.obs ++ [o] }, if bad.isEmpty then "ok " ++ k else "bad " ++ k ++ " " ++ " ".intercalate bad)
     | _, _, _, _, _ => bad
+  | "obscls" :: rest =>
+    -- `obscls <id> <class> ; …` : judge the LAST observation against the application's classes
+    let pairs := (splitTok ";" rest).filterMap (fun g => match g with
+      | [id, c] => match id.toNat?, parseRat c with
+        | some id, some c => some (id, c)
+        | _, _ => none
+      | _ => none)
+    match d.obs.getLast? with
+    | some o =>
+      let bad := o.checkCls pairs
+      (d, if bad.isEmpty then "ok" else "bad " ++ " ".intercalate bad)
+    | none => (d, "ok")
   | ["wait", id] =>
     match id.toNat? with
     | some id =>
